@@ -625,7 +625,8 @@ func (p *Proxy) getNextReponseHop(msg *Message) (host string, port int, transpor
 
 func (p *Proxy) findClientTransport(host string, port int, transport string, transId string) (ClientTransport, error) {
 	trans, err := p.clientTransMgr.GetTransport(transport, host, port, p.localAddress, transId)
-	if err == nil && trans.primary == nil {
+	// only a hop that is reached over UDP can be sent to from the socket of the UDP listener
+	if err == nil && trans.primary == nil && strings.EqualFold(transport, "udp") {
 		serverTrans, ok := p.selfLearnRoute.GetRoute(host)
 		if ok {
 			udpServerTrans, ok := serverTrans.(*UDPServerTransport)
